@@ -922,6 +922,12 @@ fn gen_outbound(kind: OutKind, ch: &mut Choices) -> Plan {
     }
     plan.ending = Ending::Settle;
     plan.max_steps = 12_000;
+    if plan.senders.iter().flatten().any(|o| matches!(o, AppOp::PubQ1Nb { .. })) && ch.chance(1, 2) {
+        // the acknowledgement callback looks at its own sink (is_open / is_ready / credit) - re-entrancy into
+        // the shared state from inside the dispatcher's acknowledgement path
+        plan.cfg.cb_queries = true;
+        plan.tags.push("cb-queries".into());
+    }
     plan
 }
 
